@@ -240,6 +240,18 @@ def evaluate(ctx, cases):
                     v["MUT"] = 1
             if core.canon(rb) != before or core.canon(p1.asdicts()) != printed[0] or core.canon(p1.apply(copy.deepcopy(doc))) != before:
                 ctx.violation("results of repeated applications must be mutually independent (and independent of the patch)", inp, "shared structure", "independent")
+        # the document given as JSON text (equal documents, no object the caller could share): every application starts from the text
+        if isinstance(doc, (dict, list)):
+            txt = json.dumps(doc)
+            tr = []
+            for k in range(3):
+                r = core.outcome(lambda: (p1 if k != 1 else p4).apply(txt if k < 2 else io.StringIO(txt)))
+                tr.append({"ok": core.canon(r["ok"])} if "ok" in r else {"err": r["err"]})
+                if "ok" in r and isinstance(r["ok"], (dict, list)):
+                    (r["ok"].append("MUT") if isinstance(r["ok"], list) else r["ok"].update({"MUT": 1}))
+            ctx.count("json-text-document")
+            if not (tr[0] == tr[1] == tr[2] == results[0]):
+                ctx.violation("applying a patch repeatedly to the same JSON text must give the result of applying it to the parsed value, every time", {**inp, "document_text": txt}, tr, results[0])
 
 
 def search(ctx):
